@@ -66,11 +66,13 @@ class McScript:
     non-default answers are offered (elsewhere the menu has the default only).
     """
 
-    TRANS = (np.array([0.30, -0.20, 0.10]), np.array([-0.30, 0.20, -0.10]))
+    # the last entry of the translation / angle / length menus is a *tiny* move: it produces
+    # near-ties of the overlap measure and barely stretched bonds (tolerance shortcuts)
+    TRANS = (np.array([0.30, -0.20, 0.10]), np.array([-0.30, 0.20, -0.10]), np.array([1e-6, -1e-6, 1e-6]))
     AXES = (np.array([0.3, -0.8, 0.5]), np.array([-0.9, 0.1, 0.4]))
-    THETAS = (0.4, -1.3)
+    THETAS = (0.4, -1.3, 1e-6)
     HELPERS = (np.array([0.31, 0.77, 0.52]), np.array([0.93, 0.12, 0.64]))
-    LENGTHS = (0.7, -1.3)          # in units of sigma
+    LENGTHS = (0.7, -1.3, 2e-3)    # in units of sigma
 
     def __init__(self, ctx, horizon, events, deviate_at=None, accept_menu=4):
         self.ctx = ctx
@@ -104,13 +106,13 @@ class McScript:
         if kind == 'normal':
             size = a[2] if len(a) > 2 else k.get('size')
             if size == 3:
-                v = self.TRANS[self._choose(2, 'trans')] * a[1]
+                v = self.TRANS[self._choose(len(self.TRANS), 'trans')] * a[1]
                 self.events.append(('trans', v.copy()))
                 return v
             if self.in_move:
                 self.in_move = False
-                return self.LENGTHS[self._choose(2, 'length')] * a[1]
-            return self.THETAS[self._choose(2, 'theta')]
+                return self.LENGTHS[self._choose(len(self.LENGTHS), 'length')] * a[1]
+            return self.THETAS[self._choose(len(self.THETAS), 'theta')]
         if kind == 'uniform':
             return self.AXES[self._choose(2, 'axis')].copy()
         if kind == 'randint':
